@@ -120,8 +120,8 @@ type lockExec struct {
 	monitors []string
 	// statistics for the non-triviality rule / class
 	nBatch, nMulti, nFailedKnown, nEvicted, nRequeued, nReplaced, nPeekHit, skipped int
-	nIdleEq, nExpEq int  // refresh ticks with an entry exactly on the idle / expiry boundary
-	jitter          bool // a step took longer in real time than the rebase unit: the case must be re-run
+	nIdleEq, nExpEq                                                                 int  // refresh ticks with an entry exactly on the idle / expiry boundary
+	jitter                                                                          bool // a step took longer in real time than the rebase unit: the case must be re-run
 }
 
 // rebaseUnit: every period is a multiple of it, and a step must take less real time than it
@@ -407,6 +407,7 @@ func runLock(in input) hlib.Case {
 // generator: ops are chosen among the enabled ones while executing
 
 var sourcePool = []string{"10.0.0.1", "10.0.0.2", "10.0.0.3", "a", "", "host-b", "10.0.0.10"}
+
 // periods in half seconds
 var halfSeconds = func(ks ...int64) []int64 {
 	out := make([]int64, len(ks))
